@@ -303,6 +303,7 @@ void harness (void)
     written = in_ok && !(in_use_mask && gk < VC_W && mask[gk] == 0);
     if (gk < VC_W && !written)
         VH_CHECK ("fp.masked_or_untransformable_pixel_not_written", buffer[gk] == in_buf0);
+#ifndef VC_NOCHECK    /* (the finding.* job only looks at the language-level obligations of the call) */
     if (gk < VC_W && written)
     {
         X = (ss_i64) in_vx + gk * (ss_i64) in_ux; Y = (ss_i64) in_vy + gk * (ss_i64) in_uy;
@@ -327,6 +328,7 @@ void harness (void)
         }
 #endif
     }
+#endif
     VH_END ();
 }
 #endif
